@@ -26,12 +26,17 @@ B = core.f2bits
 F = core.bits2f
 
 NON_ADDITIVE = ("toll", "tolli", "step", "stepi", "checker", "clear")     # motion cost not additive along interpolated points
-BG_OBJECTIVES = ("toll", "tolli", "step", "stepi", "checker", "integral", "clear", "work")
+# motion cost EXACTLY additive along interpolated points (up to rounding): the routines' own cost tests then bound path.cost(obj) itself.
+# `lin` = state-cost integral over a LINEAR field (end-point trapezoid exact), `wreg` = length weighted by an expensive region (closed form):
+# neither is a metric — a geometrically shorter chord can be costlier than the piece of path it replaces
+ADDITIVE = ("len", "work", "lin", "wreg")
+BG_OBJECTIVES = ("toll", "tolli", "step", "stepi", "checker", "integral", "clear", "work", "lin", "wreg")
 LOCKSTEP = ("collapse", "rope", "subdivide", "interp", "interpn", "reduce", "pshort")
 REMOVERS = ("collapse", "reduce")
 DENSIFIERS = ("subdivide", "interp", "interpn")
 LEN_MONOTONE = ("collapse", "reduce", "rope", "pshort")       # "never longer" (metric space, length objective)
 OWN_OBJECTIVE = ("rope", "pshort", "perturb", "bettergoal")   # compare costs under their objective before replacing
+PSHORT_OBJ = ("len", "work", "lin", "wreg", "wreg", "toll", "step", "checker")    # objectives of the scripted partialShortcutPath (`pshorto`), lock-step
 RET_FALSE_UNCHANGED = ("collapse", "reduce", "pshort", "perturb", "bettergoal")
 
 
@@ -48,12 +53,15 @@ class Scenario:
         self.goals = []
         self.rho = 0.4        # Dubins turning radius
         self.oneway = None    # (ylo, yhi): direction-sensitive validator — inside the band no motion may go in +x direction
+        self.wts = (1.0, 0.0)  # kind "pm": PSEUDO-METRIC compound space cmp(w0 * R^2, w1 * SO(2)); a zero weight puts distinct states at distance 0
 
     def space_tokens(self):
         if self.kind == "dubins":
             return ["dubins", B(self.rho), "0"] + [B(self.lo)] * 2 + [B(self.hi)] * 2
         if self.kind == "se2":
             return ["se2"] + [B(self.lo)] * 2 + [B(self.hi)] * 2
+        if self.kind == "pm":
+            return ["cmp", "2", B(self.wts[0]), "rv", "2"] + [B(self.lo)] * 2 + [B(self.hi)] * 2 + [B(self.wts[1]), "so2"]
         n = self.pdim
         return ["rv", str(n)] + [B(self.lo)] * n + [B(self.hi)] * n
 
@@ -68,6 +76,9 @@ class Scenario:
 
     def lvs(self):
         """longest valid segment of the position subspace (the spacing of the discrete motion check)"""
+        if self.kind == "pm":
+            # positions every sqrt(2) * 10 * res, headings every pi * res: spacing in (x, y, theta) below the sum
+            return (math.sqrt(2) * (self.hi - self.lo) + math.pi) * self.res
         return math.sqrt(self.pdim) * (self.hi - self.lo) * self.res
 
     def states_line(self, word, sts):
@@ -180,6 +191,11 @@ def path_len(sc, sts):
 
 
 def dist(sc, a, b):
+    if sc.kind == "pm":
+        y = abs(a[2] - b[2])
+        if y > math.pi:
+            y = 2 * math.pi - y
+        return sc.wts[0] * math.sqrt((a[0] - b[0]) ** 2 + (a[1] - b[1]) ** 2) + sc.wts[1] * y
     d = math.sqrt(sum((a[i] - b[i]) ** 2 for i in range(sc.pdim)))
     if sc.kind == "se2":
         y = abs(a[2] - b[2])
@@ -217,8 +233,12 @@ def gen_ops(rng, sc, tier):
         k = rng.choice([0, 4, 20, 120])
         us = [rng.unit() if rng.chance(5, 6) else rng.choice([0.0, 0.5, 0.25, 1.0 - 2.0 ** -53]) for _ in range(k)]
         ops.append(("pshort", " ".join(["pshort", str(steps()), str(steps()), B(rr()), B(snap()), str(k)] + [B(x) for x in us])))
+    for _ in range(2):
+        k = rng.choice([4, 20, 120])
+        us = [rng.unit() if rng.chance(5, 6) else rng.choice([0.0, 0.5, 0.25, 1.0 - 2.0 ** -53]) for _ in range(k)]
+        ops.append(("pshort", " ".join(["pshorto", rng.choice(PSHORT_OBJ), str(steps()), str(steps()), B(rr()), B(snap()), str(k)] + [B(x) for x in us])))
     # directed: snapToVertex = 0 and a first sample EXACTLY on a repeated vertex (t = 0/0), second sample elsewhere
-    if sc.kind != "se2":
+    if sc.kind not in ("se2", "pm"):
         ds = [0.0]
         for i in range(n - 1):
             d = 0.0
@@ -239,12 +259,12 @@ def gen_ops(rng, sc, tier):
     if sc.kind != "se2":
         seeds = [rng.below(1000) for _ in range(2 if tier == "quick" else 6)]
         for sd in seeds:
-            objs = ["len", "len", "integral", "clear", "work", "work"]
+            objs = ["len", "len", "integral", "clear", "work", "work", "lin", "wreg", "wreg"]
             o = lambda: rng.choice(objs)
             ops.append(("reduce", "rnd %d %s reduce %d %d %s" % (sd, "len", steps(), steps(), B(rr()))))
             ops.append(("pshort", "rnd %d %s pshort %d %d %s %s" % (sd, o(), steps(), steps(), B(rr()), B(snap()))))
             ops.append(("collapse", "rnd %d %s collapse %d %d" % (sd, "len", steps(), steps())))
-            ops.append(("rope", "rnd %d %s rope %s %s" % (sd, rng.choice(["len", "integral", "work"]), B(rng.choice([L / 4, 1.0, 2.5 * L])), B(0.1))))
+            ops.append(("rope", "rnd %d %s rope %s %s" % (sd, rng.choice(["len", "integral", "work", "lin", "wreg"]), B(rng.choice([L / 4, 1.0, 2.5 * L])), B(0.1))))
             ops.append(("bspline", "rnd %d %s bspline %d %s" % (sd, "len", rng.choice([0, 1, 3, 5]), B(rng.choice([2.2e-16, 1e-3, L / 100])))))
             ops.append(("perturb", "rnd %d %s perturb %s %d %d %s" % (sd, o(), B(rng.choice([0.3, 1.0, L, 3 * L])), steps(), steps(), B(snap()))))
             ops.append(("bettergoal", "rnd %d %s bettergoal %d %d %s %s" % (sd, o(), rng.choice([0, 3, 1000000]), rng.choice([1, 10]), B(rr()), B(snap()))))
@@ -443,13 +463,14 @@ def oracle(sc, routine, line, res, objective, goals_used):
     if base in LEN_MONOTONE and objective == "len":
         if res["len1"] > res["len0"] * (1 + rel) + 1e-12:
             fails.append(("never_longer", "length %r -> %r" % (res["len0"], res["len1"])))
-    if base in OWN_OBJECTIVE and objective in ("len", "work"):
+    if base in OWN_OBJECTIVE and objective in ADDITIVE:
         # `work` = mechanical work over the linear height field h = y (ASYMMETRIC: climbing costs, descending is free): cuts are additive
         # (y is interpolated linearly), so the routine's own direction-dependent comparison bounds path.cost(obj) exactly as for length.
         # Dubins + path length: asymmetric distance, geodesic interpolation; tolerance 1e-6 for the Dubins classification noise.
         tol_ = 1e-6 if sc.kind == "dubins" else rel
         if res.get("worse", res["cost1"] > res["cost0"]) and res["cost1"] > res["cost0"] * (1 + tol_) + 1e-12:
-            fails.append(("never_worse", "cost %r -> %r under %s%s" % (res["cost0"], res["cost1"], objective, " (Dubins)" if sc.kind == "dubins" else "")))
+            fails.append(("never_worse", "cost %r -> %r under %s%s" % (res["cost0"], res["cost1"], objective, " (Dubins)" if sc.kind == "dubins" else ""),
+                          "worse-under-an-additive-non-length-objective" if objective not in ("len", "work") else None))
     if base == "bettergoal" and objective != "len":
         # findBetterGoal compares COMPLETE candidate paths (cost to the sample + motion to the goal against costs.back()) with the very
         # sums path.cost(obj) uses, so path.cost(obj) itself must not get worse, whatever the objective (verdict of the objective's own
@@ -547,7 +568,9 @@ def classify_crash(line, err, ck=None, hchk=None, hdr=None):
             return "selectAlongPath-oob-snap0"
     # partialShortcutPath lines 384-386 / 396-398: t = (distTo - dists[pos]) / (dists[pos+1] - dists[pos]); interpolate(states[pos], states[pos+1], ..)
     # (the out-of-range dists[pos+1] / states[pos+1] show up as a redzone hit, a wild pointer or a freed state)
-    if memerr and rt == "pshort" and F(t[7] if rnd else t[4]) == 0.0 and \
+    if t[0] == "pshorto":
+        rt = "pshort"
+    if memerr and rt == "pshort" and F(t[7] if rnd else t[5] if t[0] == "pshorto" else t[4]) == 0.0 and \
             re.search(r"partialShortcutPath.*PathSimplifier\.cpp:(38[4-6]|39[6-8])\b", err):
         return "snap0-sample-at-path-end"
     for key in ("heap-buffer-overflow", "heap-use-after-free", "SEGV", "runtime error", "Assertion", "LeakSanitizer"):
@@ -614,8 +637,10 @@ def run_scenario(ck, hbin, hchk, sc, ops, tag, seedtag):
             continue
         t = line.split()
         rnd = t[0] == "rnd"
-        objective = t[2] if rnd else "len"
-        ck.count("op:" + ("rnd-" if rnd else "") + routine)
+        objective = t[2] if rnd else t[1] if t[0] == "pshorto" else "len"
+        ck.count("op:" + ("rnd-" if rnd else "") + routine + ("-obj" if t[0] == "pshorto" else ""))
+        if t[0] == "pshorto":
+            ck.count("pshorto:objective=" + objective)
         if o == "budget-exceeded":
             nonadd = routine == "rope" and objective in NON_ADDITIVE
             issues.append(dict(kind="oracle", routine=routine, clause="terminates", cls="rope-does-not-return-under-a-non-additive-objective (as before fix F173)" if nonadd else "checkMotion-budget",
@@ -671,7 +696,32 @@ def run_scenario(ck, hbin, hchk, sc, ops, tag, seedtag):
             idx_err = lambda: dict(kind="idx", routine=routine, clause="indices_in_range", cls="model-index-error",
                                    detail="checked indexing fails in the model of the current code: the routine indexes a vector out of range",
                                    script=hdr + [line], observed=[o], model=[m])
-            if routine == "pshort":
+            if routine == "pshort" and line.startswith("pshorto "):
+                # partialShortcutPath under an objective: the tree's model, then the variant whose alongPath starts at posTemp = pos0
+                # (the segment containing an un-snapped first sample is counted twice)
+                mc, _, mdbl = m.partition(" | dbl ")
+                mc, mdbl = canon(mc), canon(mdbl)
+                if mc == "idx-error":
+                    issues.append(idx_err())
+                elif impl_c == mc:
+                    if mc != mdbl:
+                        ck.count("pshorto:input-on-which-double-counting-differs")
+                    if res["ret"] == 1:
+                        ck.count("pshorto:shortcut-taken:" + line.split()[1])
+                    issues += pending_fails.get(line, [])
+                elif impl_c == mdbl and mdbl != "idx-error" and line.split()[1] in ADDITIVE and res["cost1"] > res["cost0"]:
+                    # the implementation took a shortcut the tree's cost test rejects, the objective is additive and path.cost(obj) went up
+                    issues += pending_fails.get(line, [])
+                    issues.append(dict(kind="regress", fid=None, named="alongPath started at posTemp = pos0", routine="pshort", clause="never_worse",
+                                       cls="replaced piece over-priced: the segment containing the un-snapped first sample is counted twice",
+                                       detail="partialShortcutPath prices the replaced piece from the segment that CONTAINS the earlier sample: with the sample "
+                                              "inside that segment its partial cost and the whole segment are both in alongPath, so a shortcut costlier than "
+                                              "the piece it replaces is accepted (objective %s)" % line.split()[1],
+                                       script=hdr + [line], observed=[o], model=[m]))
+                else:
+                    issues += pending_fails.get(line, [])
+                    issues.append(corr())
+            elif routine == "pshort":
                 # the driver prints the model of the current code, then the model of the code before fix b725c3169 (F55)
                 # the driver prints the model of the tree's code (fixes F55 + F170), then the code before fix F55, then the code before
                 # fix F170 (checkMotion in sampling order).  Only the first is accepted.
@@ -896,7 +946,7 @@ def gen_corner_scenario(rng):
     return sc, ops
 
 
-WHOLE_OBJ = ("len", "toll", "step", "checker", "work")
+WHOLE_OBJ = ("len", "toll", "step", "checker", "work", "lin", "wreg")
 
 
 def run_whole(ck, hbin, hchk, sc, rng, tag):
@@ -1524,6 +1574,159 @@ def gen_toll_scenario(rng):
     return sc, ops
 
 
+def gen_region_detour(rng):
+    """directed for the COST TEST of the cost-aware routines under an additive objective that is not a metric: `wreg` (length weighted 5x inside
+    the box [3.5, 6.5]^2) with a path that walks AROUND the box, or `lin` (cost density 0.25 + x) with a path that bows towards small x — many
+    geometrically shorter chords are costlier than the piece of path they would replace, so the routine's own comparison (alongPath against
+    the chord) is what keeps path.cost(obj) from rising.  partialShortcutPath runs under scripted draws in lock-step (`pshorto`), every
+    cost-aware routine with the real RNG."""
+    sc = Scenario()
+    sc.kind, sc.pdim, sc.w = "rv2", 2, 2
+    sc.res = 0.01
+    shape = rng.choice(["around", "around", "graze", "bow"])
+    pts = []
+    if shape == "around":
+        m0, m1, m2 = (rng.uniform(0.15, 1.3) for _ in range(3))
+        pts = [(3.5 - m0 + rng.uniform(-0.8, 0.6), rng.uniform(3.6, 6.4)), (3.5 - m0, 6.5 + m1), (6.5 + m2, 6.5 + m1), (6.5 + m2 + rng.uniform(-0.6, 0.8), rng.uniform(3.6, 6.4))]
+    elif shape == "graze":
+        pts = [(rng.uniform(1.0, 3.0), rng.uniform(1.0, 3.0)), (rng.uniform(3.0, 4.0), rng.uniform(6.0, 7.5)), (rng.uniform(6.0, 7.5), rng.uniform(6.0, 7.5)),
+               (rng.uniform(7.0, 9.0), rng.uniform(1.0, 4.0))]
+    else:
+        xs, h = rng.uniform(3.0, 5.5), rng.uniform(1.0, 2.6)
+        pts = [(xs, 1.5), (xs - h, rng.uniform(3.0, 4.5)), (xs - h + rng.uniform(-0.3, 0.3), rng.uniform(5.5, 7.0)), (xs + rng.uniform(-0.5, 0.5), 8.5)]
+    # extra vertices ON the segments (collinear vertices: snapped samples, vertex-to-vertex shortcuts) and a little jitter
+    path = [pts[0]]
+    for a, b in zip(pts[:-1], pts[1:]):
+        for _ in range(rng.choice([0, 0, 1, 2])):
+            t_ = rng.uniform(0.15, 0.85)
+            path.append((a[0] + t_ * (b[0] - a[0]) + rng.uniform(-0.02, 0.02), a[1] + t_ * (b[1] - a[1]) + rng.uniform(-0.02, 0.02)))
+        path.append(b)
+    # keep the order along each segment
+    if rng.chance(1, 2):
+        path = [(q[1], q[0]) for q in path] if shape != "bow" else path      # the region is symmetric in x / y; the linear field is not
+    if rng.chance(1, 2):
+        path = path[::-1]
+    path = [(min(max(q[0], 0.1), 9.9), min(max(q[1], 0.1), 9.9)) for q in path]
+    sc.path = path
+    sc.goals = [path[-1], (min(max(path[-1][0] + rng.uniform(-1, 1), 0.1), 9.9), min(max(path[-1][1] + rng.uniform(-1, 1), 0.1), 9.9))]
+    main = "lin" if shape == "bow" else "wreg"
+    ops = []
+    for j in range(8):
+        k = 120
+        us = [rng.unit() for _ in range(k)]
+        ob_ = main if j < 6 else ("wreg" if main == "lin" else "lin")
+        ops.append(("pshort", " ".join(["pshorto", ob_, str(rng.choice([0, 10, 50])), str(rng.choice([0, 0, 20])), B(rng.choice([1.0, 1.0, 0.5, 0.33])),
+                                        B(rng.choice([0.0, 0.005, 0.005, 0.05, 0.2])), str(k)] + [B(x) for x in us])))
+    L = path_len(sc, path)
+    for _ in range(3):
+        sd = rng.below(100000)
+        for ob_ in (main, "wreg" if main == "lin" else "lin"):
+            ops.append(("pshort", "rnd %d %s pshort %d %d %s %s" % (sd, ob_, rng.choice([0, 30, 100]), 0, B(rng.choice([1.0, 0.5, 0.33])), B(rng.choice([0.005, 0.0, 0.05])))))
+            ops.append(("perturb", "rnd %d %s perturb %s %d %d %s" % (sd, ob_, B(rng.choice([0.5, 1.0, 2.0])), rng.choice([0, 30]), 0, B(rng.choice([0.005, 0.0, 0.05])))))
+            ops.append(("rope", "rnd %d %s rope %s %s" % (sd, ob_, B(rng.choice([L / 8, 1.0, L / 3])), B(0.1))))
+            ops.append(("bettergoal", "rnd %d %s bettergoal 1000000 20 %s %s" % (sd, ob_, B(rng.choice([1.0, 0.5])), B(0.005))))
+        ops.append(("simplify", "rnd %d %s simplify %d %d" % (sd, main, rng.choice([3, 9, 1000000]), rng.below(2))))
+    return sc, ops, shape
+
+
+def gen_pm(rng, tier):
+    """PSEUDO-METRIC spaces: cmp(w0 * R^2, w1 * SO(2)) with a ZERO subspace weight (usually the heading's: "ignore the heading in the distance"):
+    distinct states at distance 0, zero-length motions that are real motions.  Obstacles are boxes over (x, y, theta), so a turn on the spot can be
+    invalid while the path that backs off, turns and comes back is valid.  Headings stay within +-1.45, so SO(2) interpolation is linear and the
+    oracle's geometry is that of R^3.  Every routine runs with the recording validator's `only validated motions` oracle; the lock-step ops run
+    against the model over the same weighted space."""
+    sc = Scenario()
+    sc.kind, sc.pdim, sc.w = "pm", 3, 3
+    sc.res = rng.choice([0.005, 0.01, 0.02])
+    sc.wts = rng.choice([(1.0, 0.0), (1.0, 0.0), (1.0, 0.0), (0.5, 0.0), (1.0, 0.5), (0.0, 1.0)])
+    directed = rng.chance(1, 2)
+
+    def rnd_state():
+        return (rng.uniform(0.5, 9.5), rng.uniform(0.5, 9.5), rng.uniform(-1.45, 1.45))
+
+    def ok(a, b):
+        return free_segment(sc, a, b, -1e-6)
+    for _ in range(rng.choice([0, 1, 2, 3])):
+        lo = (rng.uniform(0.5, 8.0), rng.uniform(0.5, 8.0), rng.uniform(-1.3, 0.6))
+        sc.boxes.append((lo, (lo[0] + rng.uniform(0.5, 2.0), lo[1] + rng.uniform(0.5, 2.0), lo[2] + rng.uniform(0.3, 1.2))))
+    core = []
+    if directed:
+        # back off, turn, come back: the on-the-spot rotation between the two visits of p is INVALID
+        for _ in range(50):
+            px, py = rng.uniform(1.5, 8.5), rng.uniform(1.5, 8.5)
+            tlo = rng.uniform(-0.9, 0.2)
+            thi = tlo + rng.uniform(0.3, 0.8)
+            box = ((px - 0.3, py - 0.3, tlo), (px + 0.3, py + 0.3, thi))
+            t0, t2 = tlo - rng.uniform(0.1, 0.5), thi + rng.uniform(0.1, 0.5)
+            ang, r_ = rng.uniform(0, 2 * math.pi), rng.uniform(1.2, 2.6)
+            q = (min(max(px + r_ * math.cos(ang), 0.3), 9.7), min(max(py + r_ * math.sin(ang), 0.3), 9.7), rng.uniform(tlo, thi))
+            a_, c_ = (px, py, t0), (px, py, t2)
+            if rng.chance(1, 2):
+                a_, c_ = c_, a_
+            old = sc.boxes
+            sc.boxes = old + [box]
+            if ok(a_, q) and ok(q, c_) and all(ok(s_, s_) for s_ in (a_, q, c_)):
+                core = [a_, q, c_]
+                break
+            sc.boxes = old
+        if not core:
+            directed = False
+
+    def free_state():
+        for _ in range(200):
+            s_ = rnd_state()
+            if ok(s_, s_):
+                return s_
+        return None
+    n = rng.choice([3, 4, 5, 6, 8, 10, 14] + ([20, 30] if tier != "quick" else []))
+    path = []
+    first = free_state()
+    if first is None:
+        return None
+    path = [first]
+    tries = 0
+    pre = rng.below(3) if directed else n
+    phase = 0
+    while tries < 60 * n:
+        tries += 1
+        if directed and phase == 0 and len(path) - 1 >= pre:
+            # splice the core in
+            if ok(path[-1], core[0]):
+                path += core
+                phase = 1
+                pre = len(path) + rng.below(3)
+                continue
+            path = path[:1] if len(path) > 1 else [free_state() or path[0]]
+            continue
+        if (directed and phase == 1 and len(path) >= pre) or (not directed and len(path) >= n):
+            break
+        r = rng.below(100)
+        if r < 8:
+            nxt = path[-1]
+        elif r < 30 and len(path) >= 2:
+            # come back to an EARLIER position with another heading (distance 0 under a zero heading weight)
+            e = path[rng.below(len(path) - 1)]
+            nxt = (e[0], e[1], rng.uniform(-1.45, 1.45))
+        elif r < 40:
+            nxt = (path[-1][0], path[-1][1], rng.uniform(-1.45, 1.45))      # turn on the spot
+        elif r < 50:
+            nxt = (rng.uniform(0.5, 9.5), rng.uniform(0.5, 9.5), path[-1][2])   # translate, same heading
+        elif r < 75:
+            nxt = (min(max(path[-1][0] + rng.uniform(-2, 2), 0.3), 9.7), min(max(path[-1][1] + rng.uniform(-2, 2), 0.3), 9.7), rng.uniform(-1.45, 1.45))
+        else:
+            nxt = rnd_state()
+        if ok(nxt, nxt) and ok(path[-1], nxt):
+            path.append(nxt)
+    if len(path) < 3 or (directed and phase == 0):
+        return None
+    sc.path = path
+    sc.goals = [path[-1]]
+    g = free_state()
+    if g is not None:
+        sc.goals.append(g)
+    return sc, directed
+
+
 def gen_hybridseq(rng):
     """interleaved recordPath / computeHybridPath.  Half of the scenarios have a wall (x in [4.8, 5.2], full height) with paths on
     both sides that cannot be cross-connected; a poor path is recorded and computed first, better ones later."""
@@ -1645,6 +1848,10 @@ def run_corpus_script(ck, hbin, name, script, hchk=None):
     env = script[1].split()
     if env[1] == "se2":
         sc.kind, sc.pdim, sc.w = "se2", 2, 3
+    elif env[1] == "cmp":
+        # cmp 2 <w0> rv 2 <lo>*2 <hi>*2 <w1> so2   (pseudo-metric scenarios)
+        sc.kind, sc.pdim, sc.w = "pm", 3, 3
+        sc.wts = (F(env[3]), F(env[10]))
     else:
         sc.pdim = sc.w = int(env[2])
         sc.kind = "rv%d" % sc.pdim
@@ -1718,6 +1925,11 @@ def handle(ck, issues, hchk, state):
             if capped(key):
                 continue
             state["bad"] += 1
+            if it.get("named"):
+                ck.log("property failure (the implementation equals the model variant `%s`): %s/%s: %s" % (it["named"], it["routine"], it["clause"], it["detail"][:200]))
+                ck.report({"engine": "pathops", "routine": it["routine"], "clause": it["clause"], "class": it["cls"], "variant": it["named"],
+                           "what": it["detail"]}, script=it["script"], expected=it.get("model"), observed=it["observed"], engine="pathops")
+                continue
             ck.log("property failure (as before fix %s): %s/%s: %s" % (it["fid"], it["routine"], it["clause"], it["detail"][:200]))
             ck.report({"engine": "pathops", "routine": it["routine"], "clause": it["clause"], "class": it["cls"], "as_before_fix": it["fid"],
                        "what": it["detail"]}, script=it["script"], expected=it.get("model"), observed=it["observed"], engine="pathops")
@@ -1835,6 +2047,22 @@ def run(ck):
             osc, oops = gen_oneway(ck.rng.fork("oneway%d" % j))
             ck.count("scenario:one-way-zone")
             futs.append(ex.submit(run_scenario, ck, hbin, hchk, osc, oops, "oneway", j))
+        for j in range(16 if ck.tier == "quick" else 120):
+            rsc, rops, shape = gen_region_detour(ck.rng.fork("region%d" % j))
+            ck.count("scenario:region-detour-" + shape)
+            futs.append(ex.submit(run_scenario, ck, hbin, hchk, rsc, rops, "region", j))
+        for j in range(28 if ck.tier == "quick" else 220):
+            pr = ck.rng.fork("pm%d" % j)
+            got = gen_pm(pr, ck.tier)
+            if got is None:
+                ck.count("scenario:pseudo-metric-generation-failed")
+                continue
+            psc, pdir = got
+            ck.count("scenario:pseudo-metric" + ("-directed-turn-on-the-spot" if pdir else ""))
+            ck.count("scenario:pseudo-metric:weights=%g,%g" % psc.wts)
+            if any(dist(psc, psc.path[a_], psc.path[b_]) == 0.0 and psc.path[a_] != psc.path[b_] for a_ in range(len(psc.path)) for b_ in range(a_ + 2, len(psc.path))):
+                ck.count("scenario:pseudo-metric:distinct-nonadjacent-states-at-distance-0")
+            futs.append(ex.submit(run_scenario, ck, hbin, hchk, psc, gen_ops(pr, psc, ck.tier), "pm", j))
         for j in range(8 if ck.tier == "quick" else 40):
             csc, cops = gen_corner_scenario(ck.rng.fork("corner%d" % j))
             ck.count("scenario:corner-zigzag")
